@@ -20,6 +20,10 @@ type RetryTransaction struct {
 	retryNum      uint
 	timerMutex    sync.Mutex
 	timer         *time.Timer
+	// timerGen is incremented whenever the timer is (re)started. A timer which
+	// has fired already but whose function has not run yet cannot be stopped,
+	// its generation tells it that it is stale.
+	timerGen      uint64
 	retryCallback RTRetryCallback
 	State         interface{}
 	Data          interface{}
@@ -100,13 +104,24 @@ func (t *RetryTransaction) restartTimer() {
 	if t.isDone() {
 		return
 	}
-	t.timer = time.AfterFunc(t.retryDelay, t.timeout)
+	t.timerGen++
+	gen := t.timerGen
+	t.timer = time.AfterFunc(t.retryDelay, func() { t.timeout(gen) })
 }
 
-func (t *RetryTransaction) timeout() {
+func (t *RetryTransaction) timeout(gen uint64) {
 	t.retryNumMutex.Lock()
 	defer t.retryNumMutex.Unlock()
 
+	// The timer has been restarted (the transaction has proceeded to its next
+	// step) while it was firing: the new step must not be retried right away,
+	// its first retry is due one retryDelay after the progress.
+	t.timerMutex.Lock()
+	stale := gen != t.timerGen
+	t.timerMutex.Unlock()
+	if stale {
+		return
+	}
 	// The transaction has finished while the timer was firing.
 	if t.isDone() {
 		return
